@@ -147,6 +147,8 @@ class Unit:
                 return self.coerce('true' if v else 'false', 'bool', want)
             if isinstance(v, str):
                 return self.coerce(coq_str(v), 'string', want)
+            if isinstance(v, int):
+                return self.coerce(f'{v}%Z', 'Z', want)
             raise Untranslatable(f'constant {v!r}')
         if isinstance(e, ast.Attribute):
             key = ast.unparse(e)
@@ -184,6 +186,13 @@ class Unit:
                     raise Untranslatable('is None on non-option')
                 isn = f'(match {t} with None => true | Some _ => false end)'
                 return self.coerce(isn if isinstance(op, ast.Is) else f'(negb {isn})', 'bool', want)
+            if isinstance(op, (ast.Lt, ast.LtE, ast.Gt, ast.GtE)):
+                a, ta = self.expr(e.left, env)
+                b, tb = self.expr(rhs, env)
+                if ta == 'Z' and tb == 'Z':
+                    fn = {ast.Lt: 'Z.ltb', ast.LtE: 'Z.leb', ast.Gt: 'Z.gtb', ast.GtE: 'Z.geb'}[type(op)]
+                    return self.coerce(f'({fn} {a} {b})', 'bool', want)
+                raise Untranslatable('comparison types')
             if isinstance(op, (ast.Eq, ast.NotEq)):
                 a, ta = self.expr(e.left, env)
                 b, tb = self.expr(rhs, env)
@@ -211,6 +220,23 @@ class Unit:
             if ty != 'exn':
                 raise Untranslatable('isinstance on a non-exception')
             return self.coerce(f'(isinst errors_classes {t} [{coq_str(e.args[1].id)}])', 'bool', want)
+        if isinstance(e, ast.Call) and isinstance(e.func, ast.Name) and ast.unparse(e) in self.spec.get('ctx_exprs', {}):
+            t, ty = self.spec['ctx_exprs'][ast.unparse(e)]
+            return self.coerce(t, ty, want)
+        if isinstance(e, ast.Call) and isinstance(e.func, ast.Name) and e.func.id in self.spec.get('free_functions', {}) \
+                and not e.keywords:
+            fn, argtys, resty = self.spec['free_functions'][e.func.id]
+            if len(e.args) != len(argtys):
+                raise Untranslatable('free function arity')
+            args = [self.expr(a, env, ty)[0] for a, ty in zip(e.args, argtys)]
+            return self.coerce(f'({fn} {" ".join(args)})', resty, want)
+        if isinstance(e, ast.IfExp):
+            c = self.truth(e.test, env)
+            a, ta = self.expr(e.body, env, want)
+            b, tb = self.expr(e.orelse, env, want)
+            if ta != tb:
+                raise Untranslatable('ifexp types')
+            return (f'(if {c} then {a} else {b})', ta)
         if isinstance(e, ast.Call) and isinstance(e.func, ast.Name) and e.func.id in self.spec.get('functions', {}) \
                 and len(e.args) == 1 and not e.keywords:
             fn, argty, resty = self.spec['functions'][e.func.id]
@@ -349,6 +375,39 @@ class Unit:
             raise Untranslatable('raise form')
         if isinstance(st, ast.AugAssign) and isinstance(st.target, ast.Name) and st.target.id not in self.live:
             return cont(s, env)
+        if isinstance(st, ast.AugAssign) and isinstance(st.target, ast.Name) and isinstance(st.op, ast.Add) \
+                and st.target.id in env and env[st.target.id][1] == 'Z':
+            x = st.target.id
+            v, ty = self.expr(st.value, env, 'Z')
+            nx = self.new(x + '_')
+            self.assign_log.append(x)
+            return f'(let {nx} := ({env[x][0]} + {v})%Z in {cont(s, {**env, x: (nx, "Z")})})'
+        if isinstance(st, ast.Break):
+            if not self.break_k:
+                raise Untranslatable('break outside a loop')
+            return self.break_k[-1](s, env)
+        # x = f(i, *args, **kwargs): a value-returning callback
+        if isinstance(st, ast.Assign) and len(st.targets) == 1 and isinstance(st.targets[0], ast.Name) \
+                and isinstance(st.value, ast.Call) and isinstance(st.value.func, ast.Name) \
+                and st.value.func.id in self.spec.get('value_callbacks', {}) and mode[0] == 'effv':
+            prim, argtys, resty = self.spec['value_callbacks'][st.value.func.id]
+            pos = [a for a in st.value.args if not isinstance(a, ast.Starred)]
+            if len(pos) != len(argtys) or any(k.arg is not None for k in st.value.keywords):
+                raise Untranslatable('value callback arguments')
+            args = [self.expr(a, env, ty)[0] for a, ty in zip(pos, argtys)]
+            x = st.targets[0].id
+            nx, s2, o = self.new(x + '_'), self.new('s'), self.new('o')
+            self.assign_log.append(x)
+            return (f'(match ({prim} {" ".join(args)} {s}) with | (IDone {nx}, {s2}) => '
+                    f'{cont(s2, {**env, x: (nx, resty)})} | (IRaise {o}, {s2}) => (IRaise {o}, {s2}) end)')
+        # time.sleep(d)
+        if isinstance(st, ast.Expr) and isinstance(st.value, ast.Call) and ast.unparse(st.value.func) == 'time.sleep' \
+                and len(st.value.args) == 1 and mode[0] in ('eff', 'effv'):
+            d, ty = self.expr(st.value.args[0], env, 'Q')
+            s2 = self.new('s')
+            return f'(let {s2} := add_sleep {s} {d} in {cont(s2, env)})'
+        if isinstance(st, ast.While) and isinstance(st.test, ast.Constant) and st.test.value is True and not st.orelse:
+            return self.while_true(st, rest, s, env, cur, k, mode)
         if isinstance(st, ast.Assign) and len(st.targets) == 1 and isinstance(st.targets[0], ast.Name) \
                 and mode[0] in ('eff', 'effv') and self.eff_value(st.value) is not None:
             x = st.targets[0].id
@@ -385,6 +444,9 @@ class Unit:
             t, ty = self.expr(st.value, env)
             nx = self.new(x + '_')
             self.assign_log.append(x)
+            if ty == 'option Q' and mode[0] in ('eff', 'effv'):
+                return (f'(match {t} with Some {nx} => {cont(s, {**env, x: (nx, "Q")})} '
+                        f'| None => {m_raise(mode, "OUnsup", s)} end)')
             return f'(let {nx} := {t} in {cont(s, {**env, x: (nx, ty)})})'
         if isinstance(st, ast.If) and self.droppable(st.body) and self.droppable(st.orelse):
             return cont(s, env)          # both branches only log
@@ -484,9 +546,48 @@ class Unit:
                     f'| ({ev}, {s1}) => {arms} end)')
         raise Untranslatable(f'statement {type(st).__name__}')
 
+    def while_true(self, st, rest, s, env, cur, k, mode):
+        """`while True:` -> a Fixpoint on fuel over the loop-carried variables; `break` continues with the
+        statements after the loop (translated inside the Fixpoint), falling off the end of the body
+        iterates."""
+        if self.loop_fuel is None or self.in_protected or self.break_k:
+            raise Untranslatable('while loop here')
+        assigned = set()
+        for sub in ast.walk(st):
+            if isinstance(sub, (ast.Assign, ast.AugAssign)):
+                for t in (sub.targets if isinstance(sub, ast.Assign) else [sub.target]):
+                    if isinstance(t, ast.Name):
+                        assigned.add(t.id)
+        carried = [x for x in env if x in assigned]
+        others = [x for x in env if x not in assigned and not x.startswith('__') and x not in self.spec.get('free_vars', {})
+                  and not x.startswith('self.')]
+        name = self.sig_coq + '_loop'
+        if self.aux:
+            raise Untranslatable('a second loop (or a loop reached on two paths)')
+        params = [(x, env[x][1]) for x in carried] + [(x, env[x][1]) for x in others]
+        loop_env = {**env, **{x: (x, ty) for x, ty in params}}
+
+        def continue_k(s2, env2):
+            args = ' '.join(env2[x][0] for x, _ in params)
+            return f'({name} fuel\' {args} {s2})'
+
+        self.break_k.append(lambda s2, env2: self.block(rest, s2, env2, cur, k, mode))
+        try:
+            body = self.block(st.body, 's', loop_env, cur, continue_k, mode)
+        finally:
+            self.break_k.pop()
+        binders = ' '.join(f'({x} : {ty})' for x, ty in params)
+        rty = 'iter_result * st' if mode[0] == 'effv' else 'R'
+        self.aux.append(f"Fixpoint {name} (fuel : nat) {binders} (s : st) : {rty} :=\n"
+                        f"  match fuel with\n  | O => {m_raise(mode, 'OUnsup', 's')}\n  | S fuel' => {body}\n  end.")
+        args = ' '.join(env[x][0] for x, _ in params)
+        return f'({name} fuel {args} {s})'
+
     @staticmethod
     def droppable(stmts):
-        return all(is_doc(st) or is_logging(st) or isinstance(st, (ast.Assert, ast.Pass)) for st in stmts)
+        return all(is_doc(st) or is_logging(st) or isinstance(st, (ast.Assert, ast.Pass))
+                   or (isinstance(st, ast.If) and Unit.droppable(st.body) and Unit.droppable(st.orelse))
+                   for st in stmts)
 
     def eff_value(self, e):
         """`context.get_formatted_as_type(self.X, out_type=bool)` -> (self.X node, model function, type)"""
@@ -622,9 +723,11 @@ class Unit:
         params = sig['params']
         head_args = ' '.join(f'({pn} : {pty})' for pn, pty in params)
         try:
-            fn = find_function(tree, f"{self.spec['cls']}.{name}" if self.spec['cls'] else name)
+            fn = find_function(tree, sig.get('path') or (f"{self.spec['cls']}.{name}" if self.spec['cls'] else name))
             got = [a.arg for a in fn.args.args if a.arg not in ('self', 'context')
                    and a.arg not in self.spec.get('callbacks', {})]
+            if sig.get('varargs') and not (fn.args.vararg and fn.args.kwarg):
+                raise Untranslatable('expected *args, **kwargs')
             if got != [pn for pn, _ in params]:
                 raise Untranslatable(f'signature changed: {got}')
             # python defaults must agree with the table
@@ -639,6 +742,13 @@ class Unit:
             self.assign_log = []
             self.fresh = 0
             env = {pn: (pn, pty) for pn, pty in params}
+            env.update(self.spec.get('free_vars', {}))
+            self.aux = []
+            self.break_k = []
+            self.sig_coq = sig['coq']
+            self.loop_fuel = 'fuel' if sig.get('fuel') else None
+            if sig.get('fuel'):
+                head_args = (head_args + ' (fuel : nat)').strip()
             if sig['kind'] == 'pure':
                 def fall(s, env2):
                     if sig['ret'].startswith('option'):
@@ -655,7 +765,7 @@ class Unit:
                 body = self.block(fn.body, 's', env, None, lambda s, e: f'(OOk, {s})', ('eff',))
                 text = f"Definition {sig['coq']} {head_args} (s : st) : R :=\n  {body}."
             self.defined.append(name)
-            return text
+            return '\n\n'.join(self.aux + [text])
         except Untranslatable as ex:
             self.defined.append(name)
             return (f"(* UNTRANSLATABLE {self.spec['cls'] or self.spec['file']}.{name}: {ex} *)\n"
@@ -884,7 +994,27 @@ STEP_RUN = {
     },
     'order': ['run_step'],
 }
-UNITS = [STEPSRUNNER, STEP, RETRY, WHILE, PIPELINE, PYPE, STEP_FOREACH, STEP_RUN]
+POLL = {
+    'file': 'pypyr/utils/poll.py', 'cls': None, 'section': 'GenPoll',
+    'variables': [
+        ('prim_f', 'Z -> st -> iter_result * st', 'f(i, *args, **kwargs): the polled function'),
+        ('interval_callable', 'bool', 'callable(interval)'),
+        ('prim_interval_fn', 'Z -> option Q', 'interval(i) (None = a duration outside the model)'),
+        ('prim_interval_const', 'option Q', 'interval, when it is a plain number'),
+        ('max_attempts', 'option Z', 'max_attempts'),
+    ],
+    'attrs': {},
+    'free_vars': {'interval': ('prim_interval_const', 'option Q'), 'max_attempts': ('max_attempts', 'option Z')},
+    'free_functions': {'interval': ('prim_interval_fn', ['Z'], 'option Q')},
+    'ctx_exprs': {'callable(interval)': ('interval_callable', 'bool')},
+    'value_callbacks': {'f': ('prim_f', ['Z'], 'bool')},
+    'fields': {}, 'ctors': {}, 'obj_methods': {},
+    'methods': {'sleep_looper': {'kind': 'effv', 'coq': 'gen_sleep_looper', 'params': [], 'ret': 'bool',
+                                 'path': 'while_until_true.decorator.sleep_looper', 'varargs': True,
+                                 'fuel': True}},
+    'order': ['sleep_looper'],
+}
+UNITS = [STEPSRUNNER, STEP, RETRY, WHILE, PIPELINE, PYPE, STEP_FOREACH, STEP_RUN, POLL]
 
 
 def pure_call_hook(unit):
